@@ -129,7 +129,9 @@ impl Default for Tr {
     fn default() -> Tr {
         let _g = enter(Ctx::Work);
         ledger::tick(Seam::Default);
-        Tr::fresh()
+        let t = Tr::fresh();
+        ledger::note_clone(u32::MAX, t.id);
+        t
     }
 }
 
@@ -304,7 +306,9 @@ impl Default for Pl {
     fn default() -> Pl {
         let _g = enter(Ctx::Work);
         ledger::tick(Seam::Default);
-        Pl::fresh()
+        let p = Pl::fresh();
+        ledger::note_clone(u32::MAX, p.id);
+        p
     }
 }
 impl Elem for Pl {
